@@ -189,6 +189,9 @@ def prepare(workdir):
     # definition" is meaningful (the property's wording); directories with a fixed set of outputs are not planted
     per_object = ("wow_login_messages/src/logon/", "wow_world_messages/src/world/", "wow_world_base/src/inner/", "wowm_language/src/docs")
     c.generated_dirs = sorted(d for d, fs in bydir.items() if all(f in gset for f in fs) and len(fs) >= 3 and (d + "/").startswith(per_object))
+    # directories that hold nothing but generated files (any number): a checkout in which generated files are not tracked
+    # does not even have them
+    c.removable_dirs = sorted(d for d, fs in bydir.items() if d and fs and all(f in gset for f in fs))
     return c
 
 
@@ -210,7 +213,7 @@ def gen_scenario(c, i, seed, tier):
         j = (i * 7919) % total if tier != "quick" else [0, total // 2, total - 1][i % 3]
         manner = CRASH_MANNERS[i % len(CRASH_MANNERS)]
         return {"index": i, "label": "sweep: all generated files deleted, crash at op %d (%s)" % (j, manner), "order_seed": rng.randrange(1 << 30),
-                "faults": [{"kind": "delete_all_generated", "path": ""}], "crashes": [{"pos": "abs", "idx": j, "frac": 0.0, "manner": manner, "k": rng.randrange(1, 4000)}],
+                "faults": [{"kind": "delete_all_generated", "path": "", "rmdirs": i % 2 == 1}], "crashes": [{"pos": "abs", "idx": j, "frac": 0.0, "manner": manner, "k": rng.randrange(1, 4000)}],
                 "final_runs": 2 if i % 4 == 0 else 1, "aslr_off": False, "pad_env": 0}
     faults = []
     k = rng.choice([1, 1, 2, 2, 5, 5, 20, 50])
@@ -225,7 +228,7 @@ def gen_scenario(c, i, seed, tier):
             name = "zz_verif_extra_%d%s" % (rng.randrange(1000), ext)
             faults.append({"kind": kind, "path": os.path.join(d, name if kind == "extra_file" else "zz_verif_dir_%d" % rng.randrange(1000))})
         elif kind == "delete_dir":
-            d = rng.choice(c.generated_dirs)
+            d = rng.choice(c.removable_dirs if rng.random() < 0.5 else c.generated_dirs)
             faults.append({"kind": kind, "path": d})
         elif kind == "foreign":
             d = rng.choice(c.generated_dirs)
@@ -307,6 +310,13 @@ def apply_fault(root, c, f):
                     os.remove(os.path.join(root, g))
                 except FileNotFoundError:
                     pass
+            if f.get("rmdirs"):
+                # as git would leave it: directories that held only generated files are gone
+                for d in sorted(c.removable_dirs, key=len, reverse=True):
+                    try:
+                        os.rmdir(os.path.join(root, d))
+                    except OSError:
+                        pass
         return True
     except FileNotFoundError:
         return False
